@@ -6,14 +6,19 @@ def run(ctx):
     rule = ("Each case = one endpoint (client or server) re-run alone, in a child forked from the same parent snapshot with pinned entropy and virtual clock, against the recorded "
             "peer byte stream of a scenario (full / resumed / ticket / client-auth / failing handshakes, TLS 1.3 with HelloRetryRequest and with accepted 0-RTT data, then 3 "
             "application payloads each way and closure) under one partition of the input into receive calls (fixed sizes 1..9,13,16,64,511,1000, record-aligned, 7 "
-            "record-straddling cuts, coalesced via GetReadbufOfSize, seeded random) or one partial-send pattern; bytes are never delivered earlier relative to the endpoint's own "
+            "record-straddling cuts, record-shifted = every receive call ends k = 1..5 (thorough 1..9) bytes into the NEXT record, coalesced via GetReadbufOfSize, seeded random) or one partial-send pattern; bytes are never delivered earlier relative to the endpoint's own "
             "output than in the recording. Augmented scenarios: while recording, the harness plays a conforming non-MatrixSSL peer / middlebox and splices into the stream the "
             "records MatrixSSL never emits itself - TLS 1.3 compatibility change_cipher_spec records (1 or 2) at every record boundary between the first ClientHello / "
             "ServerHello / HelloRetryRequest and the sender's Finished (all at once, at the typical positions, and one position at a time, both directions), [CCS x n][alert] in "
             "place of the sender's protected flight (plaintext or sealed under its handshake traffic key; warning close_notify, fatal handshake_failure), and for TLS 1.1/1.2 an "
-            "authentic HelloRequest (server) / renegotiation ClientHello (client) sealed with the sender's current write state before / between / after its application records. "
+            "authentic HelloRequest (server) / renegotiation ClientHello (client) sealed with the sender's current write state before / between / after its application records, and "
+            "for TLS 1.1/1.2 application data pipelined directly behind the Finished of the side that finishes first (MatrixSSL itself waits for the peer's Finished): 1-2 (thorough "
+            "1-3) application records of 29 / 300 / 1 bytes sealed with the sender's write state as soon as its Finished is encoded - the client's False Start data behind "
+            "[ClientKeyExchange][CCS][Finished] of full handshakes (ECDHE-RSA-GCM, RSA-CBC TLS 1.1, PSK-CBC, RSA-GCM with client auth) and the server's data behind "
+            "[ServerHello][CCS][Finished] of resumed ones (session id, ticket); the receiver of those records is re-run (thorough: both roles). "
             "The recording and every alone re-run see the same augmented stream; on it the same partitions apply plus a cut at every offset -2..+8 around each spliced group and "
-            "'everything up to k bytes behind the group in one call, then the next record in 1- or 3-byte pieces'. The trace (events incl. the level/description of every alert "
+            "'everything up to k bytes behind the group in one call, then the next record in 1- or 3-byte pieces' (thorough, pipelined data: a cut at every byte offset inside the "
+            "pipelined records, up to 420). The trace (events incl. the level/description of every alert "
             "handed to the application, delivered plaintext, emitted bytes, and the state the connection leaves behind) must equal the flight-at-a-time reference. State left "
             "behind, taken after the stream was consumed and the sessions were deleted: for client re-runs a digest of the sslSessionId_t (idLen, id, masterSecret, cipherId, ticket "
             "state/length/bytes/lifetime, every TLS 1.3 PSK with key, identity and parameters) and length + digest of the first flight a NEW client session created with that "
@@ -27,6 +32,9 @@ def run(ctx):
          "state left behind is observed through the client's sslSessionId_t and through a follow-up handshake in the same child; other residue (e.g. the position of the "
          "session in the cache's LRU list) is not observed",
          "DTLS is out of scope of this property (datagram boundaries are semantic)",
+         "pipelined application data: after MATRIXSSL_REQUEST_SEND / HANDSHAKE_COMPLETE the harness does not poll matrixSslReceivedData(ssl, 0) for records the library kept "
+         "buffered behind the peer's Finished; they are delivered with the next receive call (more input always follows in these scenarios), and only the order of delivered "
+         "plaintext, events and emitted bytes is compared, not the call that delivers them",
          "the application stops reading once the session failed (input behind a fatal error is C15's subject)",
          "which call reports HANDSHAKE_COMPLETE may depend on coalescing (APP_DATA implies it); while the start of a further record is buffered the report is deferred to the call "
          "that completes that record - only a completion that is never reported once the endpoint is idle with an empty input buffer is a violation",
